@@ -108,6 +108,19 @@ PROPS_ALL["C02"] = dict(cache_prop(
     "Theorems (Conc/Cell.v) for ALL interleavings of ANY number of threads: a get returns nothing or the value of the latest write action on its key (never superseded, removed or phantom), observed values never go backwards in the order the writes took effect, and after all threads stop each key holds nothing or the last value written; maintenance can only remove. PARTIAL (runtime behaviour the model cannot exhibit): that the real cache's operations perform exactly one such atomic map action each is checked, not proved: every run, small concurrent programs (2-4 threads x 1-6 ops, 1-3 keys, capacities none/1..4, ttl/tti/weigher) are executed with real threads under the baton-passing scheduler (unpreempted, random, every single preemption point, sampled pairs), the map actions ordered by their linearisation step must be accepted by the extracted cell model, and an oracle over operation intervals (independent of the hooks) plus uncontrolled real-thread stress runs look for a concrete incoherent history.",
     note_extra=NOTE_CONC), module="p_conc")
 
+PROPS_ALL["C03"] = cache_prop(
+    "C03", "Coq proof (completeness = converse simulation for unbounded caches; step characterisations of insert/maintenance/invalidation on the map view) + lock-step correspondence + no-loss oracle with removal causes + refill probe",
+    "Theorems for the single-threaded cache model, all well-formed states / all histories: without max_capacity every reference-live entry is returned by get/contains_key/iteration (the cache is exactly a map with expiry); a new key that fits is admitted and evicts nothing; maintenance removes an entry only if it is expired or the cache is over capacity; get/contains_key remove nothing else, invalidation removes exactly its targets, updates evict nothing. PARTIAL: for the concurrent cache the no-loss statements are decided by the lock-step correspondence (model = repaired code), the no-loss oracle on implementation traces (no capacity pressure => every live entry returned; idle-timer extension of a get counted only once maintenance has applied it) and the refill probe after sequential histories and after every explored multi-threaded schedule; the structural basis (no ghost / no orphan entries, counters = physical after maintenance) is Sync/SInvTop.v + SInvWrites.v." + TIE)
+PROPS_ALL["C04"] = cache_prop(
+    "C04", "Coq proof (accounting invariant + step characterisations: weighted size never grows beyond capacity except by an in-place update, maintenance removes the excess) + lock-step correspondence on counters/weights + capacity oracle",
+    "Theorems for the single-threaded cache model, every operation from every well-formed state: weighted_size (= physical resident weight, C10) never grows beyond max(capacity, previous) except by the weight growth of an in-place update; the maintenance every operation starts with brings it within capacity or evicts a whole batch; a fresh insert heavier than the capacity is never retained and touches nothing. PARTIAL: for the concurrent cache (after maintenance that empties the queues) the bound rests on the accounting theorem of Sync/SInvTop.v (counters = physical) and is otherwise decided by the correspondence and the capacity oracle (sequential histories, bursts, and the end of every explored schedule); the overshoot bound between maintenance runs is the abstract housekeeper model (Conc/HK.v) when it lands." + TIE)
+PROPS_ALL["C12"] = cache_prop(
+    "C12", "Coq proof (loop invariants of evict_lru_entries / admit on the LRU list; recency characterisation of every operation) + lock-step correspondence on deque order + LRU-prefix oracle",
+    "Theorems for the single-threaded cache model, all well-formed states, capacities and weights (incl. 0): size eviction removes a prefix of the LRU order, the shortest covering the excess (or a whole batch); admission victims are the shortest LRU prefix reaching the newcomer's weight; insert, update and successful get move the key to the MRU end and nothing else reorders (maintenance, contains_key, invalidation keep the relative order). PARTIAL: the concurrent cache (maintenance after every op) is tied by the lock-step correspondence on the deque order and the LRU-prefix oracle evaluated against the recency order of the history; no separate theorem." + TIE)
+PROPS_ALL["C13"] = cache_prop(
+    "C13", "Coq proof (admit loop = declarative TinyLFU rule on the LRU triples, early exit shown irrelevant) + lock-step correspondence incl. sketch words + prediction oracle from the implementation's own estimates",
+    "Theorem for the single-threaded cache model, all well-formed states/configurations/hashers: a new key that does not fit (and is not oversized) is admitted iff the shortest LRU prefix with weight >= its own exists and its estimate is strictly greater than the summed estimates of that prefix; if admitted exactly that prefix is evicted, otherwise no resident is touched; an oversized newcomer is rejected without touching anything. Scan resistance and 'popular newcomer gets in' are instances. PARTIAL: the concurrent cache (maintenance after every op) is tied by the lock-step correspondence (sketch words, map, deque) and the prediction oracle that recomputes the decision from the implementation's own estimates read just before the insert." + TIE)
+
 # Only properties whose whole pipeline is in place are claimed in MANIFEST.json.
-CLAIMED = ["C14", "C01", "C05", "C06", "C07", "C16", "C08", "C10", "C11", "C17", "C15", "C02"]
+CLAIMED = ["C14", "C01", "C05", "C06", "C07", "C16", "C08", "C10", "C11", "C17", "C15", "C02", "C03", "C04", "C12", "C13"]
 PROPS = {k: v for k, v in PROPS_ALL.items() if k in CLAIMED}
